@@ -144,33 +144,35 @@ PolyDer(cs, x, n) ==
            QZero, IRange(1, Len(cs)))
 
 (*************************** expression evaluation *************************)
-RECURSIVE Ev(_, _)
-EvSeq(es, k) == Tup([i \in 1..Len(es) |-> Ev(es[i], k)])
-Ev(e, k) ==
+RECURSIVE Ev3(_, _, _)
+EvSeq3(es, k, env) == Tup([i \in 1..Len(es) |-> Ev3(es[i], k, env)])
+\* env: values of the event's shared subexpressions (node ref {i} is env[i+1])
+Ev3(e, k, env) ==
   CASE e.t = "z" -> QInt(ZMk(e.s, e.m))
     [] e.t = "i" -> QNat(e.v)
     [] e.t = "f" -> IF Len(e.m) = 0 THEN QZero ELSE QFromDy(Dy(ZMk(e.s, e.m), e.e))
     [] e.t = "q" -> QNorm(<<ZMk(e.s, e.n), ZMk(0, e.d)>>)
     [] e.t = "k" -> QNat(k)
-    [] e.t = "add" -> FoldLeft(LAMBDA acc, x : QAdd(acc, x), QZero, EvSeq(e.a, k))
-    [] e.t = "mul" -> FoldLeft(LAMBDA acc, x : QMul(acc, x), QOne, EvSeq(e.a, k))
-    [] e.t = "max" -> LET xs == EvSeq(e.a, k) IN FoldLeft(LAMBDA acc, x : QMax(acc, x), xs[1], xs)
-    [] e.t = "min" -> LET xs == EvSeq(e.a, k) IN FoldLeft(LAMBDA acc, x : QMin(acc, x), xs[1], xs)
-    [] e.t = "sub" -> QSub(Ev(e.a[1], k), Ev(e.a[2], k))
-    [] e.t = "div" -> QDiv(Ev(e.a[1], k), Ev(e.a[2], k))
-    [] e.t = "neg" -> QNeg(Ev(e.a[1], k))
-    [] e.t = "abs" -> QAbs(Ev(e.a[1], k))
-    [] e.t = "sq" -> LET x == Ev(e.a[1], k) IN QMul(x, x)
-    [] e.t = "pow" -> QPow(Ev(e.a[1], k), e.n)
+    [] e.t = "ref" -> env[e.i + 1]
+    [] e.t = "add" -> FoldLeft(LAMBDA acc, x : QAdd(acc, x), QZero, EvSeq3(e.a, k, env))
+    [] e.t = "mul" -> FoldLeft(LAMBDA acc, x : QMul(acc, x), QOne, EvSeq3(e.a, k, env))
+    [] e.t = "max" -> LET xs == EvSeq3(e.a, k, env) IN FoldLeft(LAMBDA acc, x : QMax(acc, x), xs[1], xs)
+    [] e.t = "min" -> LET xs == EvSeq3(e.a, k, env) IN FoldLeft(LAMBDA acc, x : QMin(acc, x), xs[1], xs)
+    [] e.t = "sub" -> QSub(Ev3(e.a[1], k, env), Ev3(e.a[2], k, env))
+    [] e.t = "div" -> QDiv(Ev3(e.a[1], k, env), Ev3(e.a[2], k, env))
+    [] e.t = "neg" -> QNeg(Ev3(e.a[1], k, env))
+    [] e.t = "abs" -> QAbs(Ev3(e.a[1], k, env))
+    [] e.t = "sq" -> LET x == Ev3(e.a[1], k, env) IN QMul(x, x)
+    [] e.t = "pow" -> QPow(Ev3(e.a[1], k, env), e.n)
     [] e.t = "pow2" -> QPow2(e.n)
-    [] e.t = "poly" -> LET x == Ev(e.x, k)  cs == EvSeq(e.c, k)
+    [] e.t = "poly" -> LET x == Ev3(e.x, k, env)  cs == EvSeq3(e.c, k, env)
                        IN FoldRight(LAMBDA c, acc : QAdd(QMul(acc, x), c), cs, QZero)
-    [] e.t = "sumk" -> FoldLeft(LAMBDA acc, j : QAdd(acc, Ev(e.body, j)), QZero, IRange(e.lo, e.hi))
-    [] e.t = "prodk" -> FoldLeft(LAMBDA acc, j : QMul(acc, Ev(e.body, j)), QOne, IRange(e.lo, e.hi))
-    [] e.t = "hypterm" -> HypTerm(EvSeq(e.as, k), EvSeq(e.bs, k), Ev(e.z, k), e.n)
-    [] e.t = "ortho" -> Ortho(e.fam, e.n, Ev(e.x, k), Ev(e.par, k))
-    [] e.t = "polyint" -> PolyInt(EvSeq(e.c, k), Ev(e.a[1], k), Ev(e.a[2], k))
-    [] e.t = "polyder" -> PolyDer(EvSeq(e.c, k), Ev(e.x, k), e.n)
+    [] e.t = "sumk" -> FoldLeft(LAMBDA acc, j : QAdd(acc, Ev3(e.body, j, env)), QZero, IRange(e.lo, e.hi))
+    [] e.t = "prodk" -> FoldLeft(LAMBDA acc, j : QMul(acc, Ev3(e.body, j, env)), QOne, IRange(e.lo, e.hi))
+    [] e.t = "hypterm" -> HypTerm(EvSeq3(e.as, k, env), EvSeq3(e.bs, k, env), Ev3(e.z, k, env), e.n)
+    [] e.t = "ortho" -> Ortho(e.fam, e.n, Ev3(e.x, k, env), Ev3(e.par, k, env))
+    [] e.t = "polyint" -> PolyInt(EvSeq3(e.c, k, env), Ev3(e.a[1], k, env), Ev3(e.a[2], k, env))
+    [] e.t = "polyder" -> PolyDer(EvSeq3(e.c, k, env), Ev3(e.x, k, env), e.n)
     [] e.t = "fact" -> QInt(Fact(e.n))
     [] e.t = "fact2" -> QInt(Fact2(e.n))
     [] e.t = "fib" -> QInt(Fib(e.n))
@@ -182,15 +184,20 @@ Ev(e, k) ==
     [] e.t = "stir1" -> QInt(Stir1(e.n, e.k))
     [] e.t = "stir2" -> QInt(Stir2(e.n, e.k))
 
-RECURSIVE Holds(_)
-Holds(j) ==
-  CASE j.j = "le" -> QCmp(Ev(j.a, 0), Ev(j.b, 0)) <= 0
-    [] j.j = "lt" -> QCmp(Ev(j.a, 0), Ev(j.b, 0)) < 0
-    [] j.j = "eq" -> QCmp(Ev(j.a, 0), Ev(j.b, 0)) = 0
-    [] j.j = "all" -> \A i \in 1..Len(j.js) : Holds(j.js[i])
-    [] j.j = "any" -> \E i \in 1..Len(j.js) : Holds(j.js[i])
+Ev(e, k) == Ev3(e, k, <<>>)
+EvalDefs(defs) == FoldLeft(LAMBDA env, d : Append(env, Ev3(d, 0, env)), <<>>, defs)
+
+RECURSIVE Holds2(_, _)
+Holds2(j, env) ==
+  CASE j.j = "le" -> QCmp(Ev3(j.a, 0, env), Ev3(j.b, 0, env)) <= 0
+    [] j.j = "lt" -> QCmp(Ev3(j.a, 0, env), Ev3(j.b, 0, env)) < 0
+    [] j.j = "eq" -> QCmp(Ev3(j.a, 0, env), Ev3(j.b, 0, env)) = 0
+    [] j.j = "all" -> \A i \in 1..Len(j.js) : Holds2(j.js[i], env)
+    [] j.j = "any" -> \E i \in 1..Len(j.js) : Holds2(j.js[i], env)
     [] j.j = "true" -> TRUE
     [] j.j = "false" -> FALSE
+Holds(j) == Holds2(j, <<>>)
+HoldsWith(j, defs) == Holds2(j, EvalDefs(defs))
 \* an mpf value is the integer/rational V exactly when V fits in p bits, else within one ulp (C25)
 ExactOrUlp(r, e, p) ==
   LET v == Ev(e, 0)  neg == QSign(v) < 0  N == ZAbs(v[1])  D == v[2]
